@@ -370,6 +370,11 @@ def gen_c13(run_seed):
                     spec['text'] = gen_text(rng)
                 if maybe(rng, 0.4):
                     spec['snippets'] = {k: ga.MARKUP_USER_SNIPPETS[k] for k in ('foo', 'fld', 'grp', 'repeat', 'txt', 'rep')}
+        if family != 'style' and maybe(rng, 0.3):
+            # the host hands every call the same cache dict (it is meant for stylesheet snippets, but
+            # a markup call gets it as well)
+            world['caches'] = ['k0']
+            spec['cache'] = 'k0'
         spec['options'] = opts
         spec['peer'] = {'seed': rng.randrange(1 << 16), 'style': pick(rng, PEER_STYLES)}
         world['configs'][cid] = spec
